@@ -1,5 +1,6 @@
 import PwVerif.Model.ExecNest
 import PwVerif.Proofs.Exec
+import PwVerif.Proofs.ExecFin
 /-!
 Lemmas for the nested executor: the flat invariant `Exec.Inv` holds at every level of the tree (for the
 effective wiring `effDag`), plus the links between a composite child's status in its parent and the
@@ -674,6 +675,129 @@ theorem nprogress (cfg : Cfg) (t : Tree E) (h : NInv cfg t) (hno : t.over = fals
         | deliver => simp [okAct] at hok
         | exit => simp [okAct] at hok
 
+/-! ### termination of the nested machine
+
+`nl p` lists the children of the composite at path `p` (a finite cover of its members). The potential of a tree is the
+flat potential of its outermost composite plus the potentials of its listed children; every nested action decreases it. -/
+
+/-- node lists of the composites below child `k` -/
+def below (nl : List Nat → List Nat) (k : Nat) : List Nat → List Nat := fun p => nl (k :: p)
+
+def Covered : Tree E → (List Nat → List Nat) → Prop
+  | .leaf, _ => True
+  | .comp d _ _ kids, nl =>
+    (nl []).Nodup ∧ (∀ i, d.member i → i ∈ nl []) ∧ ∀ k, Covered (kids k) (below nl k)
+
+def npot : Tree E → (List Nat → List Nat) → Nat
+  | .leaf, _ => 0
+  | .comp d _ s kids, nl => potential d (nl []) s + ((nl []).map (fun k => npot (kids k) (below nl k))).sum
+
+/-- the bound: what `npot` is on a fresh tree — a function of wiring and shape only -/
+def nbound : Tree E → (List Nat → List Nat) → Nat
+  | .leaf, _ => 0
+  | .comp d _ _ kids, nl =>
+    1 + ((nl []).map (fun i => 2 + (d.down i).length)).sum +
+      ((nl []).map (fun k => nbound (kids k) (below nl k))).sum
+
+/-- only members ever leave `idle`, at every level -/
+def NMem : Tree E → Prop
+  | .leaf => True
+  | .comp d _ s kids => MemInv d s ∧ ∀ k, NMem (kids k)
+
+theorem fresh_nmem (t : Tree E) (hf : Fresh t) : NMem t := by
+  induction t with
+  | leaf => trivial
+  | comp d exc s kids ih =>
+    obtain ⟨rfl, hk⟩ := hf
+    exact ⟨by intro i hi; simp [init] at hi, fun k => ih k (hk k)⟩
+
+theorem fresh_npot (t : Tree E) (hf : Fresh t) (nl : List Nat → List Nat) : npot t nl = nbound t nl := by
+  induction t generalizing nl with
+  | leaf => rfl
+  | comp d exc s kids ih =>
+    obtain ⟨rfl, hk⟩ := hf
+    simp only [npot, nbound]
+    have hw : weight d (init d) = fun i => 2 + (d.down i).length := by
+      funext i; simp [weight, init]
+    have h0 : potential d (nl []) (init d) = 1 + ((nl []).map (fun i => 2 + (d.down i).length)).sum := by
+      simp only [potential, hw]
+      simp [init]; omega
+    rw [h0]
+    have hfun : (fun k => npot (kids k) (below nl k)) = (fun k => nbound (kids k) (below nl k)) := by
+      funext k
+      exact ih k (hk k) (below nl k)
+    rw [hfun]
+
+theorem nstep_decreases (cfg : Cfg) (t : Tree E) : ∀ (p : List Nat) (a : Act) (t' : Tree E)
+    (nl : List Nat → List Nat), NWF t → NInv cfg t → NMem t → Covered t nl → nstep cfg t p a = some t' →
+    npot t' nl < npot t nl ∧ NMem t' ∧ Covered t' nl := by
+  induction t with
+  | leaf => intro p a t' nl _ _ _ _ h; simp [nstep] at h
+  | comp d exc s kids ih =>
+    intro p a t' nl wf hinv hmem hcov h
+    obtain ⟨wd, wk⟩ := wf
+    obtain ⟨hI, hK, hL⟩ := hinv
+    obtain ⟨hm, hmk⟩ := hmem
+    obtain ⟨hnd, hcv, hck⟩ := hcov
+    cases p with
+    | nil =>
+      obtain ⟨_, s', hs', rfl⟩ := (nstep_nil ..).mp h
+      have hdec := step_decreases cfg (effDag d kids) (wf_eff kids wd) (nl []) hnd hcv s s' a hI hm hs'
+      have hm' := step_memInv cfg (effDag d kids) (wf_eff kids wd) s s' a hI hm hs'
+      refine ⟨?_, ⟨hm', hmk⟩, hnd, hcv, hck⟩
+      simp only [npot]
+      have e1 : potential (effDag d kids) (nl []) s' = potential d (nl []) s' := rfl
+      have e2 : potential (effDag d kids) (nl []) s = potential d (nl []) s := rfl
+      omega
+    | cons k p =>
+      obtain ⟨hout, tk, htk, rfl⟩ := (nstep_cons ..).mp h
+      obtain ⟨hlt, hmk', hck'⟩ := ih k p a tk (below nl k) (wk k) (hK k) (hmk k) (hck k) htk
+      have hkin : k ∈ nl [] := hcv k (hm k (by simp [hout]))
+      refine ⟨?_, ⟨hm, ?_⟩, hnd, hcv, ?_⟩
+      · simp only [npot]
+        have := sum_map_update (nl []) hnd (fun j => npot (kids j) (below nl j))
+          (fun j => npot (updF kids k tk j) (below nl j)) k hkin (by
+            intro x hx; simp [updF, hx])
+        simp only [updF, if_true] at this
+        simp only [updF] at *
+        omega
+      · intro j
+        by_cases hj : j = k
+        · subst hj; simpa [updF] using hmk'
+        · simpa [updF, hj] using hmk j
+      · intro j
+        by_cases hj : j = k
+        · subst hj; simpa [updF] using hck'
+        · simpa [updF, hj] using hck j
+
+theorem nrun_bounded (cfg : Cfg) (acts : List (List Nat × Act)) : ∀ (t t' : Tree E) (nl : List Nat → List Nat),
+    NWF t → NInv cfg t → NMem t → Covered t nl → nrun cfg t acts = some t' →
+    acts.length + npot t' nl ≤ npot t nl := by
+  induction acts with
+  | nil => intro t t' nl _ _ _ _ h; simp [nrun] at h; subst h; simp
+  | cons pa rest ih =>
+    intro t t' nl wf hi hm hc h
+    obtain ⟨p, a⟩ := pa
+    simp only [nrun] at h
+    split at h
+    · rename_i t1 h1
+      obtain ⟨i1, w1⟩ := nstep_inv cfg t p a t1 wf hi h1
+      obtain ⟨hlt, m1, c1⟩ := nstep_decreases cfg t p a t1 nl wf hi hm hc h1
+      have := ih t1 t' nl w1 i1 m1 c1 h
+      simp only [List.length_cons]
+      omega
+    · cases h
+
+theorem FinDag.member_lt (f : FinDag) (h : f.check = true) (i : Nat) (hm : f.toDag.member i) : i < f.n := by
+  unfold FinDag.check at h
+  simp only [Bool.and_eq_true, decide_eq_true_eq] at h
+  obtain ⟨⟨⟨⟨⟨⟨⟨⟨⟨⟨hsl, _⟩, _⟩, hslt⟩, _⟩, _⟩, _⟩, _⟩, _⟩, _⟩, _⟩ := h
+  rcases hm with hm | hm
+  · exact allLt_mem hslt hm
+  · apply Classical.byContradiction
+    intro hn
+    exact hm (f.deps_ge hsl i (by omega))
+
 /-! ### finite presentations -/
 
 theorem kidsOf_all (P : Tree E → Prop) (hl : P .leaf) (l : List (Nat × Tree E)) (h : ∀ x ∈ l, P x.2) :
@@ -691,5 +815,26 @@ theorem nwf_mkComp (d : Dag) (exc : Nat → E) (l : List (Nat × Tree E)) (wd : 
 theorem fresh_mkComp (d : Dag) (exc : Nat → E) (l : List (Nat × Tree E)) (h : ∀ x ∈ l, Fresh x.2) :
     Fresh (mkComp d exc l) :=
   ⟨rfl, kidsOf_all Fresh trivial l h⟩
+
+theorem covered_kidsOf (l : List (Nat × Tree E)) (nlk : Nat → List Nat → List Nat)
+    (h : ∀ x ∈ l, Covered x.2 (nlk x.1)) : ∀ k, Covered (kidsOf l k) (nlk k) := by
+  intro k
+  unfold kidsOf
+  cases hf : l.find? (fun p => p.1 == k) with
+  | none => trivial
+  | some x =>
+    have hx := List.find?_some hf
+    simp only [beq_iff_eq] at hx
+    subst hx
+    exact h x (List.mem_of_find?_eq_some hf)
+
+/-- a composite presented by a checked `FinDag`: its children are `0 .. n-1` -/
+theorem covered_mkComp (f : FinDag) (hc : f.check = true) (exc : Nat → E) (l : List (Nat × Tree E))
+    (nl : List Nat → List Nat) (h0 : nl [] = List.range f.n) (h : ∀ x ∈ l, Covered x.2 (below nl x.1)) :
+    Covered (mkComp f.toDag exc l) nl := by
+  refine ⟨by rw [h0]; exact List.nodup_range, ?_, covered_kidsOf l (below nl) h⟩
+  intro i hm
+  rw [h0]
+  exact List.mem_range.mpr (FinDag.member_lt f hc i hm)
 
 end PwVerif.ExecNest
